@@ -232,7 +232,8 @@ def run(ctx, rep):
                 sub = any(op.startswith("Sub") for op in sl["ops"]) or any(re.search(r"checked_sub$|saturating_sub$", callee_name(c)) for c in sl["calls"])
                 some = any(a["var"] == "Some" for a in sl["aggs"])
                 if cb.kind == "Closure":
-                    good = sub and 1 in backward_slice(cb, st["rv"]["ops"][1])["args"] and 2 in backward_slice(cb, st["rv"]["ops"][1])["args"] and some
+                    aa = backward_slice(cb, st["rv"]["ops"][1])["args"]
+                    good = sub and 1 in aa and any(a >= 2 for a in aa) and some      # captured metadata length and the item handed to the closure
                 else:
                     # explicit loop in the function body: the subtrahend is the metadata length measured before the frames
                     good = sub and some
